@@ -170,6 +170,8 @@ type FE struct {
 	frameLocs      map[string][]string
 	frameReady     bool
 	initializing   bool
+	nonFreshWrites []string // positions of writes to pre-existing state (for panicsafe)
+	curIns         [2]int
 }
 
 type loopInfo struct {
@@ -637,6 +639,10 @@ func (fe *FE) frameOb(st *State, name, ref string) {
 	}
 	if isFreshRefTerm(ref) {
 		return
+	}
+	if len(fe.frameLocs[name])+len(fe.frameLocs[base]) > 0 {
+		// may be one of the listed pre-existing locations
+		fe.nonFreshWrites = append(fe.nonFreshWrites, fmt.Sprintf("%d.%d", fe.curIns[0], fe.curIns[1]))
 	}
 	goal := "(or (> " + ref + " cnt!entry) (= " + ref + " 0)"
 	for _, r := range append(fe.frameLocs[name], fe.frameLocs[base]...) {
